@@ -7,7 +7,7 @@
    process groups the original joins, stopped by a Terminate frame or when its session closes).
    Senders cast / call through a proxy:
      proxy mailbox (inb) -> proxy handler: fresh tag for a call, request frame into the session's
-     ordered stream (fw) -> remote session hands it to the original (Deliver) -> the original
+     ordered stream (fw) -> remote session hands it to the original (SessFwd, ProbeRecv) -> the original
      answers a call now or later, in any order (Reply) -> reply frame (rp) -> proxy mailbox ->
      proxy handler resolves the pending call with that tag.
    Each queue is FIFO (actor mailboxes, one ordered byte stream per session). Frames still in the
@@ -21,7 +21,9 @@ CONSTANTS Senders, Probes, MaxReq, MaxAbandon,
           DirOf,     \* [Senders -> Dirs]: the proxy side a sender uses
           Kinds,     \* \subseteq {"cast", "call"}
           Faults,    \* \subseteq {"exit", "cut"}
-          MaxPg      \* bound on join / leave operations per probe
+          MaxPg,     \* bound on join / leave operations per probe
+          TagMode,   \* "fresh" (the code) | "reuse": broken designs used to show the properties bite
+          ResolveMode \* "bytag" (the code) | "fifo"
 Dirs == {"ab", "ba"}
 Ids == Senders \X (1..MaxReq)
 
@@ -30,14 +32,16 @@ VARIABLES sess,    \* "up" | "cut"
           px,      \* [Dirs -> [Probes -> [st: "none" | "live" | "stopped", ctr, pend, grp]]]
           inb,     \* [Dirs -> [Probes -> Seq(item)]]   proxy mailbox
           fw,      \* [Dirs -> [Probes -> Seq(frame)]]  request frames towards the original
-          rp,      \* [Dirs -> [Probes -> Seq(frame)]]  reply frames towards the proxy
+          rp,      \* [Dirs -> [Probes -> set of frames]] reply frames towards the proxy (each call's answer is
+                   \*   relayed by its own waiter task: no order among them)
           ctl,     \* [Dirs -> [Probes -> Seq(kind)]]   control frames towards the proxy's session
+          pmb,     \* [Probes -> Seq(frame)]           the original's mailbox
           held,    \* [Probes -> set of [d, id, tag]]   calls received, not yet answered
           nq,      \* [Senders -> 0..MaxReq]
           rq,      \* [Ids -> [st, k, d, x, val]]       what a sender did and got
           npg,     \* [Probes -> Nat] join / leave operations so far
           got, last, fifoOk, onceOk                      \* monitors
-vars == <<sess, pr, px, inb, fw, rp, ctl, held, nq, rq, npg, got, last, fifoOk, onceOk>>
+vars == <<sess, pr, px, inb, fw, rp, ctl, pmb, held, nq, rq, npg, got, last, fifoOk, onceOk>>
 
 NoRq == [st |-> "unsent", k |-> "cast", d |-> "ab", x |-> CHOOSE x \in Probes : TRUE, val |-> <<>>]
 NoPx == [st |-> "none", ctr |-> 0, pend |-> {}, grp |-> FALSE]
@@ -48,8 +52,9 @@ Init ==
   /\ px = [d \in Dirs |-> [x \in Probes |-> IF x \in Late THEN NoPx ELSE [NoPx EXCEPT !.st = "live"]]]
   /\ inb = [d \in Dirs |-> [x \in Probes |-> <<>>]]
   /\ fw = [d \in Dirs |-> [x \in Probes |-> <<>>]]
-  /\ rp = [d \in Dirs |-> [x \in Probes |-> <<>>]]
+  /\ rp = [d \in Dirs |-> [x \in Probes |-> {}]]
   /\ ctl = [d \in Dirs |-> [x \in Probes |-> <<>>]]
+  /\ pmb = [x \in Probes |-> <<>>]
   /\ held = [x \in Probes |-> {}]
   /\ nq = [s \in Senders |-> 0]
   /\ rq = [i \in Ids |-> NoRq]
@@ -65,17 +70,17 @@ Abandoned == Cardinality({i \in Ids : rq[i].st = "timeout"})
 Send(s, k, d, x) == LET i == <<s, nq[s] + 1>> IN
   /\ nq[s] < MaxReq /\ px[d][x].st # "none"
   /\ nq' = [nq EXCEPT ![s] = @ + 1]
-  /\ IF px[d][x].st = "live"
+  /\ IF px[d][x].st \in {"live", "closing"}
        THEN /\ inb' = [inb EXCEPT ![d][x] = Append(@, [k |-> k, id |-> i, tag |-> 0, v |-> <<>>])]
             /\ rq' = [rq EXCEPT ![i] = [st |-> "sent", k |-> k, d |-> d, x |-> x, val |-> <<>>]]
        ELSE /\ inb' = inb
             /\ rq' = [rq EXCEPT ![i] = [st |-> "refused", k |-> k, d |-> d, x |-> x, val |-> <<>>]]
-  /\ UNCHANGED <<sess, pr, px, fw, rp, ctl, held, npg, got, last, fifoOk, onceOk>>
+  /\ UNCHANGED <<sess, pr, px, fw, rp, ctl, pmb, held, npg, got, last, fifoOk, onceOk>>
 \* the caller stops waiting (timeout / dropped future): the request is abandoned
 Abandon(i) ==
   /\ rq[i].st = "sent" /\ rq[i].k = "call" /\ Abandoned < MaxAbandon
   /\ rq' = [rq EXCEPT ![i].st = "timeout"]
-  /\ UNCHANGED <<sess, pr, px, inb, fw, rp, ctl, held, nq, npg, got, last, fifoOk, onceOk>>
+  /\ UNCHANGED <<sess, pr, px, inb, fw, rp, ctl, pmb, held, nq, npg, got, last, fifoOk, onceOk>>
 
 \* ---- proxy -----------------------------------------------------------------------------------
 Fail(r, ids) == [i \in Ids |-> IF i \in ids /\ r[i].st = "sent" /\ r[i].k = "call" THEN [r[i] EXCEPT !.st = "senderr"] ELSE r[i]]
@@ -88,103 +93,120 @@ PxHandle(d, x) == LET h == Head(inb[d][x]) p == px[d][x] IN
        [] h.k = "call" ->
             \* a fresh tag for every call; the reply port is parked under it
             IF sess = "up"
-              THEN /\ px' = [px EXCEPT ![d][x].ctr = p.ctr + 1, ![d][x].pend = p.pend \cup {[tag |-> p.ctr + 1, id |-> h.id]}]
-                   /\ fw' = [fw EXCEPT ![d][x] = Append(@, [k |-> "call", id |-> h.id, tag |-> p.ctr + 1])]
-                   /\ rq' = rq
-              ELSE /\ px' = [px EXCEPT ![d][x].ctr = p.ctr + 1]
-                   /\ fw' = fw /\ rq' = Fail(rq, {h.id})
+              THEN LET t == IF TagMode = "fresh" THEN p.ctr + 1 ELSE 1
+                       old == {e \in p.pend : e.tag = t}        \* an entry under the same tag is overwritten, its port dropped
+                   IN /\ px' = [px EXCEPT ![d][x].ctr = p.ctr + 1, ![d][x].pend = (p.pend \ old) \cup {[tag |-> t, id |-> h.id]}]
+                      /\ fw' = [fw EXCEPT ![d][x] = Append(@, [k |-> "call", id |-> h.id, tag |-> t])]
+                      /\ rq' = Fail(rq, {e.id : e \in old})
+              ELSE \* the connection is gone: the frame is lost; the port stays parked until the proxy goes
+                   \* down with its session, or is dropped at once if the session actor has already exited
+                   /\ fw' = fw
+                   /\ \/ px' = [px EXCEPT ![d][x].ctr = p.ctr + 1, ![d][x].pend = p.pend \cup {[tag |-> p.ctr + 1, id |-> h.id]}] /\ rq' = rq
+                      \/ px' = [px EXCEPT ![d][x].ctr = p.ctr + 1] /\ rq' = Fail(rq, {h.id})
        [] h.k = "reply" ->
             \* a reply resolves exactly the call parked under its tag (if the caller still waits)
-            LET m == {e \in p.pend : e.tag = h.tag} IN
+            LET m == IF ResolveMode = "bytag" THEN {e \in p.pend : e.tag = h.tag}
+                     ELSE {e \in p.pend : \A f \in p.pend : e.tag <= f.tag} IN
             /\ px' = [px EXCEPT ![d][x].pend = p.pend \ m]
             /\ rq' = [i \in Ids |-> IF (\E e \in m : e.id = i) /\ rq[i].st = "sent" THEN [rq[i] EXCEPT !.st = "ok", !.val = h.v] ELSE rq[i]]
             /\ fw' = fw
-  /\ UNCHANGED <<sess, pr, rp, ctl, held, nq, npg, got, last, fifoOk, onceOk>>
+  /\ UNCHANGED <<sess, pr, rp, ctl, pmb, held, nq, npg, got, last, fifoOk, onceOk>>
 
 \* ---- the far side ----------------------------------------------------------------------------
-\* the remote session hands the next request frame to the original (or drops it: unknown / dead pid)
-Deliver(d, x) == LET h == Head(fw[d][x]) s == h.id[1] q == h.id[2] IN
+\* the remote session hands the next request frame to the original's mailbox (or drops it: the pid is
+\* not advertised / no longer alive)
+SessFwd(d, x) == LET h == Head(fw[d][x]) IN
   /\ fw[d][x] # <<>>
   /\ fw' = [fw EXCEPT ![d][x] = Tail(@)]
-  /\ IF pr[x].st = "alive"
-       THEN /\ onceOk' = (onceOk /\ ~got[h.id])
-            /\ got' = [got EXCEPT ![h.id] = TRUE]
-            /\ fifoOk' = (fifoOk /\ last[x][d][s] < q)
-            /\ last' = [last EXCEPT ![x][d][s] = q]
-            /\ held' = IF h.k = "call" THEN [held EXCEPT ![x] = @ \cup {[d |-> d, id |-> h.id, tag |-> h.tag]}] ELSE held
-       ELSE UNCHANGED <<onceOk, got, fifoOk, last, held>>
-  /\ UNCHANGED <<sess, pr, px, inb, rp, ctl, nq, npg, rq>>
+  /\ pmb' = IF pr[x].st = "alive" THEN [pmb EXCEPT ![x] = Append(@, [d |-> d, k |-> h.k, id |-> h.id, tag |-> h.tag])] ELSE pmb
+  /\ UNCHANGED <<sess, pr, px, inb, rp, ctl, held, nq, npg, rq, got, last, fifoOk, onceOk>>
+\* the original handles the next message of its mailbox
+ProbeRecv(x) == LET h == Head(pmb[x]) s == h.id[1] q == h.id[2] IN
+  /\ pmb[x] # <<>> /\ pr[x].st = "alive"
+  /\ pmb' = [pmb EXCEPT ![x] = Tail(@)]
+  /\ onceOk' = (onceOk /\ ~got[h.id])
+  /\ got' = [got EXCEPT ![h.id] = TRUE]
+  /\ fifoOk' = (fifoOk /\ last[x][h.d][s] < q)
+  /\ last' = [last EXCEPT ![x][h.d][s] = q]
+  /\ held' = IF h.k = "call" THEN [held EXCEPT ![x] = @ \cup {[d |-> h.d, id |-> h.id, tag |-> h.tag]}] ELSE held
+  /\ UNCHANGED <<sess, pr, px, inb, fw, rp, ctl, nq, npg, rq>>
 \* the original answers one of the calls it holds (any order); the value names the request
+\* (the far session waits for the answer no longer than the caller does: the answer to an abandoned
+\* call may be discarded there)
 Reply(x, e) ==
   /\ pr[x].st = "alive" /\ e \in held[x]
   /\ held' = [held EXCEPT ![x] = @ \ {e}]
-  /\ rp' = IF sess = "up" THEN [rp EXCEPT ![e.d][x] = Append(@, [tag |-> e.tag, v |-> e.id])] ELSE rp
-  /\ UNCHANGED <<sess, pr, px, inb, fw, ctl, nq, npg, rq, got, last, fifoOk, onceOk>>
+  /\ \/ rp' = IF sess = "up" THEN [rp EXCEPT ![e.d][x] = @ \cup {[tag |-> e.tag, v |-> e.id]}] ELSE rp
+     \/ rq[e.id].st = "timeout" /\ rp' = rp
+  /\ UNCHANGED <<sess, pr, px, inb, fw, ctl, pmb, nq, npg, rq, got, last, fifoOk, onceOk>>
 \* a reply frame reaches the proxy's session, which passes it to the proxy if it still has one
-ReplyArrive(d, x) == LET h == Head(rp[d][x]) IN
-  /\ rp[d][x] # <<>>
-  /\ rp' = [rp EXCEPT ![d][x] = Tail(@)]
-  /\ inb' = IF px[d][x].st = "live" THEN [inb EXCEPT ![d][x] = Append(@, [k |-> "reply", id |-> <<>>, tag |-> h.tag, v |-> h.v])] ELSE inb
-  /\ UNCHANGED <<sess, pr, px, fw, ctl, held, nq, npg, rq, got, last, fifoOk, onceOk>>
+ReplyArrive(d, x, h) ==
+  /\ h \in rp[d][x]
+  /\ rp' = [rp EXCEPT ![d][x] = @ \ {h}]
+  /\ inb' = IF px[d][x].st \in {"live", "closing"} THEN [inb EXCEPT ![d][x] = Append(@, [k |-> "reply", id |-> <<>>, tag |-> h.tag, v |-> h.v])] ELSE inb
+  /\ UNCHANGED <<sess, pr, px, fw, ctl, pmb, held, nq, npg, rq, got, last, fifoOk, onceOk>>
 
 \* ---- lifecycle -------------------------------------------------------------------------------
 Ctl(c, x, k) == IF sess = "up" THEN [d \in Dirs |-> [y \in Probes |-> IF y = x THEN Append(c[d][y], k) ELSE c[d][y]]] ELSE c
 ProbeSpawn(x) ==
   /\ pr[x].st = "none" /\ pr' = [pr EXCEPT ![x].st = "alive"] /\ ctl' = Ctl(ctl, x, "spawn")
-  /\ UNCHANGED <<sess, px, inb, fw, rp, held, nq, npg, rq, got, last, fifoOk, onceOk>>
+  /\ UNCHANGED <<sess, px, inb, fw, rp, pmb, held, nq, npg, rq, got, last, fifoOk, onceOk>>
 ProbeJoin(x) ==
   /\ npg[x] < MaxPg /\ npg' = [npg EXCEPT ![x] = @ + 1]
   /\ pr[x].st = "alive" /\ ~pr[x].grp /\ pr' = [pr EXCEPT ![x].grp = TRUE] /\ ctl' = Ctl(ctl, x, "join")
-  /\ UNCHANGED <<sess, px, inb, fw, rp, held, nq, rq, got, last, fifoOk, onceOk>>
+  /\ UNCHANGED <<sess, px, inb, fw, rp, pmb, held, nq, rq, got, last, fifoOk, onceOk>>
 ProbeLeave(x) ==
   /\ npg[x] < MaxPg /\ npg' = [npg EXCEPT ![x] = @ + 1]
   /\ pr[x].st = "alive" /\ pr[x].grp /\ pr' = [pr EXCEPT ![x].grp = FALSE] /\ ctl' = Ctl(ctl, x, "leave")
-  /\ UNCHANGED <<sess, px, inb, fw, rp, held, nq, rq, got, last, fifoOk, onceOk>>
+  /\ UNCHANGED <<sess, px, inb, fw, rp, pmb, held, nq, rq, got, last, fifoOk, onceOk>>
 \* the original exits: it leaves its groups, the calls it holds are never answered
 ProbeExit(x) ==
   /\ "exit" \in Faults
   /\ pr[x].st = "alive" /\ pr' = [pr EXCEPT ![x] = [st |-> "dead", grp |-> FALSE]]
-  /\ ctl' = Ctl(ctl, x, "term") /\ held' = [held EXCEPT ![x] = {}]
+  /\ ctl' = (IF pr[x].grp THEN Ctl(Ctl(ctl, x, "term"), x, "leave") ELSE Ctl(ctl, x, "term"))
+  /\ held' = [held EXCEPT ![x] = {}] /\ pmb' = [pmb EXCEPT ![x] = <<>>]
   /\ UNCHANGED <<sess, px, inb, fw, rp, nq, npg, rq, got, last, fifoOk, onceOk>>
-\* stopping a proxy: parked and queued calls fail, it leaves every group
-StopPx(p, r, d, x) ==
-  [pxn |-> [p EXCEPT ![d][x] = [st |-> "stopped", ctr |-> p[d][x].ctr, pend |-> {}, grp |-> FALSE]],
-   rqn |-> Fail(r, {e.id : e \in p[d][x].pend} \cup {inb[d][x][j].id : j \in {j \in DOMAIN inb[d][x] : inb[d][x][j].k = "call"}})]
+\* a stop request reaches a proxy: it handles nothing any more, but its mailbox still takes messages
+\* until the actor has exited (PxClosed): then parked and queued calls fail and it is in no group
+PxClosed(d, x) == LET p == px[d][x] IN
+  /\ p.st = "closing"
+  /\ px' = [px EXCEPT ![d][x] = [st |-> "stopped", ctr |-> p.ctr, pend |-> {}, grp |-> FALSE]]
+  /\ rq' = Fail(rq, {e.id : e \in p.pend} \cup {inb[d][x][j].id : j \in {j \in DOMAIN inb[d][x] : inb[d][x][j].k = "call"}})
+  /\ inb' = [inb EXCEPT ![d][x] = <<>>]
+  /\ UNCHANGED <<sess, pr, fw, rp, ctl, pmb, held, nq, npg, got, last, fifoOk, onceOk>>
 CtlArrive(d, x) == LET k == Head(ctl[d][x]) p == px[d][x] IN
-  /\ ctl[d][x] # <<>> /\ sess = "up"
+  /\ ctl[d][x] # <<>>          \* (frames that passed the cut point still arrive)
   /\ ctl' = [ctl EXCEPT ![d][x] = Tail(@)]
   /\ CASE k = "spawn" -> px' = [px EXCEPT ![d][x] = IF p.st = "none" THEN [NoPx EXCEPT !.st = "live"] ELSE p] /\ UNCHANGED <<rq, inb>>
        [] k = "join" -> px' = [px EXCEPT ![d][x] = IF p.st = "live" THEN [p EXCEPT !.grp = TRUE] ELSE p] /\ UNCHANGED <<rq, inb>>
        [] k = "leave" -> px' = [px EXCEPT ![d][x] = IF p.st = "live" THEN [p EXCEPT !.grp = FALSE] ELSE p] /\ UNCHANGED <<rq, inb>>
-       [] k = "term" -> IF p.st = "live"
-                          THEN LET r == StopPx(px, rq, d, x) IN px' = r.pxn /\ rq' = r.rqn /\ inb' = [inb EXCEPT ![d][x] = <<>>]
-                          ELSE UNCHANGED <<px, rq, inb>>
-  /\ UNCHANGED <<sess, pr, fw, rp, held, nq, npg, got, last, fifoOk, onceOk>>
+       [] k = "term" -> px' = [px EXCEPT ![d][x] = IF p.st = "live" THEN [p EXCEPT !.st = "closing"] ELSE p] /\ UNCHANGED <<rq, inb>>
+  /\ UNCHANGED <<sess, pr, fw, rp, pmb, held, nq, npg, got, last, fifoOk, onceOk>>
 \* the connection is cut: frames in the stream are lost; both sessions close and take their proxies down
 Cut ==
   /\ "cut" \in Faults
   /\ sess = "up" /\ sess' = "cut"
-  /\ UNCHANGED <<pr, px, inb, fw, rp, ctl, held, nq, npg, rq, got, last, fifoOk, onceOk>>
+  /\ UNCHANGED <<pr, px, inb, fw, rp, ctl, pmb, held, nq, npg, rq, got, last, fifoOk, onceOk>>
 Lose(d, x) ==
-  /\ sess = "cut" /\ (fw[d][x] # <<>> \/ rp[d][x] # <<>> \/ ctl[d][x] # <<>>)
-  /\ fw' = [fw EXCEPT ![d][x] = <<>>] /\ rp' = [rp EXCEPT ![d][x] = <<>>] /\ ctl' = [ctl EXCEPT ![d][x] = <<>>]
-  /\ UNCHANGED <<sess, pr, px, inb, held, nq, npg, rq, got, last, fifoOk, onceOk>>
+  /\ sess = "cut" /\ (fw[d][x] # <<>> \/ rp[d][x] # {} \/ ctl[d][x] # <<>>)
+  /\ fw' = [fw EXCEPT ![d][x] = <<>>] /\ rp' = [rp EXCEPT ![d][x] = {}] /\ ctl' = [ctl EXCEPT ![d][x] = <<>>]
+  /\ UNCHANGED <<sess, pr, px, inb, pmb, held, nq, npg, rq, got, last, fifoOk, onceOk>>
 SessionDown(d, x) ==
   /\ sess = "cut" /\ px[d][x].st = "live"
-  /\ LET r == StopPx(px, rq, d, x) IN px' = r.pxn /\ rq' = r.rqn
-  /\ inb' = [inb EXCEPT ![d][x] = <<>>]
-  /\ UNCHANGED <<sess, pr, fw, rp, ctl, held, nq, npg, got, last, fifoOk, onceOk>>
+  /\ px' = [px EXCEPT ![d][x].st = "closing"]
+  /\ UNCHANGED <<sess, pr, inb, fw, rp, ctl, pmb, held, nq, npg, rq, got, last, fifoOk, onceOk>>
 
 Quiet ==
-  /\ \A d \in Dirs, x \in Probes : inb[d][x] = <<>> /\ fw[d][x] = <<>> /\ rp[d][x] = <<>> /\ ctl[d][x] = <<>>
+  /\ \A d \in Dirs, x \in Probes : inb[d][x] = <<>> /\ fw[d][x] = <<>> /\ rp[d][x] = {} /\ ctl[d][x] = <<>> /\ px[d][x].st # "closing"
+  /\ \A x \in Probes : pr[x].st = "alive" => pmb[x] = <<>>
   /\ sess = "cut" => \A d \in Dirs, x \in Probes : px[d][x].st # "live"
 Term == Quiet /\ UNCHANGED vars
 
 Next ==
   \/ \E s \in Senders, k \in Kinds, x \in Probes : Send(s, k, DirOf[s], x)
   \/ \E i \in Ids : Abandon(i)
-  \/ \E d \in Dirs, x \in Probes : PxHandle(d, x) \/ Deliver(d, x) \/ ReplyArrive(d, x) \/ CtlArrive(d, x) \/ Lose(d, x) \/ SessionDown(d, x)
-  \/ \E x \in Probes : (\E e \in held[x] : Reply(x, e)) \/ ProbeSpawn(x) \/ ProbeJoin(x) \/ ProbeLeave(x) \/ ProbeExit(x)
+  \/ \E d \in Dirs, x \in Probes : PxHandle(d, x) \/ SessFwd(d, x) \/ (\E h \in rp[d][x] : ReplyArrive(d, x, h)) \/ CtlArrive(d, x) \/ Lose(d, x) \/ SessionDown(d, x) \/ PxClosed(d, x)
+  \/ \E x \in Probes : ProbeRecv(x) \/ (\E e \in held[x] : Reply(x, e)) \/ ProbeSpawn(x) \/ ProbeJoin(x) \/ ProbeLeave(x) \/ ProbeExit(x)
   \/ Cut \/ Term
 Spec == Init /\ [][Next]_vars
 
@@ -203,7 +225,7 @@ ProxyHasOriginal == \A d \in Dirs, x \in Probes : px[d][x].st # "none" => pr[x].
 Mirrors ==
   Quiet => \A d \in Dirs, x \in Probes :
      /\ (sess = "up" /\ pr[x].st = "alive") => px[d][x].st = "live" /\ px[d][x].grp = pr[x].grp
-     /\ (sess = "cut" \/ pr[x].st = "dead") => px[d][x].st # "live"
+     /\ (sess = "cut" \/ pr[x].st = "dead") => px[d][x].st \notin {"live", "closing"}
      /\ px[d][x].st = "live" => \A i \in Ids : (rq[i].st = "sent" /\ rq[i].d = d /\ rq[i].x = x) =>
             (rq[i].k = "cast" \/ (\E e \in held[x] : e.id = i))
 =============================================================================
